@@ -9,8 +9,8 @@ import copy, json, re
 T0 = 1700000040  # minute aligned, inside one 7-day shard group
 TS = [(T0 + 60 * i) * 10 ** 9 for i in range(5)]  # t0..t2: loaded data; t3, t4: rewrites after the drop
 T_END = TS[4] + 60 * 10 ** 9
-HOSTS = {"a": "x", "b": "x", "c": "y", "d": "y"}  # host -> region ("d" exists only under rp2 in DROP RP histories)
-HIDX = {"a": 0, "b": 1, "c": 2, "d": 3}
+HOSTS = {"a": "x", "b": "x", "c": "y", "d": "y"}  # host -> region ("d" exists only under rp2 in DROP RP / two-drop histories)
+HIDX = {"a": 0, "b": 1, "c": 2, "d": 3, "e": 4, "f": 5}  # e, f: "new" series of two-drop histories (tag set = host only)
 RP2 = "rp2"
 DEF_RP = "autogen"
 
@@ -27,7 +27,7 @@ def wval(host, ti):
 
 
 def skey(host, region=True):
-    return (("host", host), ("region", HOSTS[host])) if region else (("host", host),)
+    return (("host", host), ("region", HOSTS[host])) if region and host in HOSTS else (("host", host),)
 
 
 # ------------------------------------------------------------------ drops
@@ -101,6 +101,7 @@ def enumerate_histories(tier):
             for cont, restart, pre in [("none", 0, 0), ("none", 1, 1), ("rewrite", 1, 0), ("flush", 0, 0),
                                        ("compact", 0, 0), ("compact", 1, 0)]:
                 hs.append(dict(srv="B", layout="compacted", drop=d, cont=cont, restart=restart, pre=pre))
+    hs += enumerate_two(tier)
     for i, h in enumerate(hs):
         h["idx"] = i
     hs.append(dict(srv="A", special="crossdb", idx=len(hs)))
@@ -108,6 +109,9 @@ def enumerate_histories(tier):
 
 
 def hkey(h):
+    if h.get("two"):
+        return "two/%s/%s>%s>%s/%s%s%s" % (h["layout"], h["d1"], h["rc"], h["d2"], h["tail"], "+mid" if h["mid"] else "",
+                                           "+restart" if h["restart"] else "")
     return "%s/%s/%s%s%s" % (h["layout"], h["drop"], h["cont"], "+restart" if h["restart"] else "", "+pre" if h["pre"] else "")
 
 
@@ -120,6 +124,8 @@ def dbname(h):
     coincide with live ids of all the others (see the crossdb scenario for that defect). DROP MEASUREMENT /
     RETENTION POLICY / DATABASE histories get a database of their own: the store flushes the whole shard when it
     carries out a DROP MEASUREMENT, which would change the layout of every other history in a shared shard."""
+    if h.get("two"):
+        return "t%04d" % h["idx"]
     if DROPS[h["drop"]]["kind"] != "series":
         return "h%04d" % h["idx"]
     return SHARED_DB
@@ -139,7 +145,11 @@ UNFILTERED = {"plain", "tag_neq_a", "tag_neq_b", "tag_nre_a", "tag_nre_b", "fiel
 
 
 def tokens(h):
-    """Flat token list of a history up to (not including) the restart part."""
+    """Flat token list of a history up to (not including) the restart part (two-drop histories: after the reopen
+    barrier R of the layout, if it has one; see pre_tokens)."""
+    if h.get("two"):
+        t = tokens_two(h)
+        return t[t.index(("R",)) + 1:] if ("R",) in t else t
     dk = DROPS[h["drop"]]["kind"]
     t = [("SETUP",)]
     t += LAYOUTS[h["layout"]]
@@ -152,6 +162,15 @@ def tokens(h):
         t.append(("CHECK", "after_drop"))
         t += CONTS[h["cont"]]
     return t
+
+
+def pre_tokens(h):
+    """tokens executed before the reopen barrier R (flush + kill -9 + start before anything else happens on the server)."""
+    if h.get("two"):
+        t = tokens_two(h)
+        if ("R",) in t:
+            return t[:t.index(("R",))]
+    return []
 
 
 def barrier_string(h):
@@ -172,7 +191,166 @@ def segments(h):
 def ends_dirty(h):
     """True if the last segment leaves rows in the memtable (then no foreign flush may follow)."""
     last = segments(h)[-1]
-    return any(x[0] in ("W", "RW", "RW2") for x in last)
+    return any(x[0] in ("W", "RW", "RW2", "RC") for x in last)
+
+
+# ------------------------------------------------------------------ two-drop histories
+# history = layout x drop1 x re-creation x drop2 x flush between x tail x restart, in a database of its own (t<idx>) with
+#   target     (t<idx>, rp2, m<idx>)      hosts a b c d
+#   sibling    (t<idx>, autogen, m<idx>)  hosts a b c   (same measurement name under the default policy)
+#   bystander  (t<idx>, autogen, n<idx>)  hosts a b c
+#   other db   (t<idx>b, autogen, m<idx>) hosts a b c   (only if one of the drops is DROP DATABASE)
+# so that every statement of the menu can be the first or the second drop on the same target.
+D1 = ["s_some", "s_all", "measurement", "rp", "database"]
+RCS = ["none", "same", "new"]  # nothing | the same series again | new series (tag set host only); both re-create what is missing
+D2 = ["s_sub", "s_all", "measurement", "rp", "database"]
+SUB_HOST = {"none": "b", "same": "a", "new": "e"}  # DROP SERIES ... WHERE host = X as second drop: a strict subset of what is there
+
+LAYOUTS_TWO = dict(LAYOUTS)
+LAYOUTS_TWO["reopened"] = [("W", (0, 1, 2)), ("R",)]  # flushed, then the server was killed and started again before the drops
+LAYOUTS_TWO["prior"] = [("W", (0, 1, 2)), ("F",), ("DROP", 0), ("CHECK", "after_prior")]  # an earlier DROP SERIES of series d
+del LAYOUTS_TWO["compacted"]
+
+TAILS = {
+    "none": [],
+    "flush": [("F",), ("CHECK", "after_flush")],
+    "rewrite_flush": [("RC", "again"), ("CHECK", "after_rewrite"), ("F",), ("CHECK", "after_flush")],
+}
+
+
+def _host_eq(x):
+    return _p("host = '%s'" % x, lambda t, x=x: t.get("host") == x)
+
+
+def drop_spec(h, n=1):
+    """statement n of a history (0 = the prior drop of layout `prior`, 1, 2) -> dict(kind, [where, fn])"""
+    if not h.get("two"):
+        return DROPS[h["drop"]]
+    if n == 0:
+        return _host_eq("d")
+    name = h["d1"] if n == 1 else h["d2"]
+    if name == "s_some":
+        return _host_eq("a")
+    if name == "s_sub":
+        return _host_eq(SUB_HOST[h["rc"]])
+    if name == "s_all":
+        return _p("", lambda t: True)
+    return dict(kind=name)
+
+
+def tokens_two(h):
+    t = [("SETUP",)] + LAYOUTS_TWO[h["layout"]]
+    t += [("DROP", 1), ("CHECK", "after_drop")]
+    if h["rc"] != "none":
+        t += [("RC", h["rc"]), ("CHECK", "after_recreate")]
+    if h["mid"]:
+        t += [("F",), ("CHECK", "after_midflush")]
+    t += [("DROP", 2), ("CHECK", "after_drop2")]
+    return t + TAILS[h["tail"]]
+
+
+def uses_otherdb(h):
+    return "database" in (h["d1"], h["d2"])
+
+
+def containers_two(h):
+    """[(prefix, db, rp, mst, full)]: what a two-drop history reads at its checkpoints"""
+    db, m, n = dbname(h), mname(h), nname(h)
+    c = [("", db, RP2, m, True), ("bystander:", db, DEF_RP, n, False), ("autogen:", db, DEF_RP, m, False)]
+    if uses_otherdb(h):
+        c.append(("otherdb:", db + "b", DEF_RP, m, False))
+    return c
+
+
+def load_rows(h, tis):
+    """initial load of a two-drop history: [(db, rp, rows)]"""
+    db, m, n = dbname(h), mname(h), nname(h)
+
+    def rows(mst, hosts, off):
+        return [(mst, skey(x), TS[ti], {"v": val(x, ti, off), "w": wval(x, ti)}) for x in hosts for ti in tis]
+    out = [(db, DEF_RP, rows(m, "abc", 0) + rows(n, "abc", 1000)), (db, RP2, rows(m, "abcd", 2000))]
+    if uses_otherdb(h):
+        out.append((db + "b", DEF_RP, rows(m, "abc", 3000)))
+    return out
+
+
+def rc_rows(h, which):
+    """rows of a re-creation step (always into the target, at a new timestamp): same = the series a, b with their old tag
+    set; new = series e, f with the tag set host only (a schema kept from before a container drop would show); again = the
+    step after the second drop (series a, c with their old tag set at t4)"""
+    m = mname(h)
+    if which == "same":
+        return [(m, skey("a"), TS[3], {"v": 100001.5}), (m, skey("b"), TS[3], {"v": 100002.5})]
+    if which == "new":
+        return [(m, skey("e"), TS[3], {"v": 100005.5}), (m, skey("f"), TS[3], {"v": 100006.5})]
+    return [(m, skey("a"), TS[4], {"v": 100003.5}), (m, skey("c"), TS[4], {"v": 100004.5})]
+
+
+def simulate(h):
+    """Runs a two-drop history on the reference alone. Returns {n: (named object exists, series removed, series of the
+    measurement m left in the database)} for the drops; used by the pruning rule and by the driver's self-check."""
+    ref = Ref()
+    db, m = dbname(h), mname(h)
+    out = {}
+    for tok in pre_tokens(h) + [("R",)] + tokens(h):
+        if tok[0] == "SETUP":
+            ref.create_db(db)
+            ref.create_rp(db, RP2)
+            if uses_otherdb(h):
+                ref.create_db(db + "b")
+        elif tok[0] == "W":
+            for d, rp, rows in load_rows(h, tok[1]):
+                for mst, series, ts, fields in rows:
+                    ref.write(d, rp, mst, series, ts, fields)
+        elif tok[0] in ("F", "R"):
+            ref.flushed()
+        elif tok[0] == "RC":
+            if db not in ref.dbs:
+                ref.create_db(db)
+            if not ref.container_exists(db, RP2):
+                ref.create_rp(db, RP2)
+            for mst, series, ts, fields in rc_rows(h, tok[1]):
+                ref.write(db, RP2, mst, series, ts, fields)
+        elif tok[0] == "DROP":
+            spec = drop_spec(h, tok[1])
+            exists = db in ref.dbs and (spec["kind"] != "rp" or ref.container_exists(db, RP2)) and (
+                spec["kind"] not in ("series", "measurement") or any(k[0] == db and k[2] == m for k in ref.msts))
+            removed = ref.apply_drop(spec, db, RP2, m, tag=tok[1]) if exists else 0
+            out[tok[1]] = (exists, removed, len(ref.series_db(db, m)))
+    return out
+
+
+def admissible(h):
+    """Pruning rule of the two-drop product: the second drop is enumerated iff, on the reference, the object it names
+    exists at that point and the statement removes at least one series; the subset form (s_sub) must in addition leave at
+    least one series of the measurement. (After 'nothing' as re-creation step that excludes every second drop on a
+    container the first drop emptied or removed; DROP SERIES / MEASUREMENT after DROP RETENTION POLICY then act on the
+    same measurement under the default policy.)"""
+    exists, removed, left = simulate(dict(h, layout="memory", mid=0, tail="none", restart=0, idx=0))[2]
+    if not exists or removed == 0:
+        return False
+    if h["d2"] == "s_sub" and left == 0:
+        return False
+    return True
+
+
+def combos_two():
+    return [dict(d1=d1, rc=rc, d2=d2) for d1 in D1 for rc in RCS for d2 in D2 if admissible(dict(two=1, d1=d1, rc=rc, d2=d2))]
+
+
+def enumerate_two(tier):
+    if tier == "quick":
+        layouts = ["memory", "flushed", "reopened"]
+        variants = [(0, "flush", 1)]
+    else:
+        layouts = ["memory", "flushed", "late", "mixed", "reopened", "prior"]
+        variants = [(0, "flush", 1), (0, "none", 1), (1, "flush", 1), (0, "rewrite_flush", 1)]
+    hs = []
+    for lay in layouts:
+        for c in combos_two():
+            for mid, tail, restart in variants:
+                hs.append(dict(c, srv="C", two=1, layout=lay, mid=mid, tail=tail, restart=restart))
+    return hs
 
 
 # ------------------------------------------------------------------ reference
@@ -190,6 +368,7 @@ class Ref:
         self.unflushed = set()  # (key, series, ts) written since the last flush
         self.schema_tags = {}  # (db, rp, mst) -> tag keys ever written while the measurement existed
         self.dropped_kind = None
+        self.drop_tag = 1  # ordinal of the drop being applied (0 = prior drop, 1, 2), set by the driver; classification only
 
     def create_db(self, db):
         self.dbs.add(db)
@@ -212,17 +391,17 @@ class Ref:
     def _bury(self, k, series, rows):
         g = self.ghost.setdefault(k, {}).setdefault(series, {})
         for ts, f in rows.items():
-            g[ts] = dict(f, _mem=((k, series, ts) in self.unflushed))
+            g[ts] = dict(f, _mem=((k, series, ts) in self.unflushed), _n=self.drop_tag, _by=self.dropped_kind)
 
     def drop_series(self, db, mst, fn):
         n = 0
+        self.dropped_kind = "series"
         for k in list(self.data):
             if k[0] == db and k[2] == mst:
                 for s in list(self.data[k]):
                     if fn(dict(s)):
                         self._bury(k, s, self.data[k].pop(s))
                         n += 1
-        self.dropped_kind = "series"
         return n
 
     def _drop_keys(self, pred):
@@ -236,29 +415,49 @@ class Ref:
                 self.schema_tags.pop(k, None)
 
     def drop_measurement(self, db, mst):
-        self._drop_keys(lambda k: k[0] == db and k[2] == mst)
         self.dropped_kind = "measurement"
+        self._drop_keys(lambda k: k[0] == db and k[2] == mst)
 
     def drop_rp(self, db, rp):
+        self.dropped_kind = "rp"
         self._drop_keys(lambda k: k[0] == db and k[1] == rp)
         self.rps[db].discard(rp)
-        self.dropped_kind = "rp"
 
     def drop_db(self, db):
+        self.dropped_kind = "database"
         self._drop_keys(lambda k: k[0] == db)
         self.dbs.discard(db)
         self.rps.pop(db, None)
-        self.dropped_kind = "database"
+
+    def apply_drop(self, spec, db, rp, mst, tag=1):
+        """spec = dict(kind=series|measurement|rp|database[, fn]); returns the number of series removed."""
+        self.drop_tag = tag
+        before = self.n_series()
+        if spec["kind"] == "series":
+            self.drop_series(db, mst, spec["fn"])
+        elif spec["kind"] == "measurement":
+            self.drop_measurement(db, mst)
+        elif spec["kind"] == "rp":
+            self.drop_rp(db, rp)
+        else:
+            self.drop_db(db)
+        return before - self.n_series()
+
+    def n_series(self):
+        return sum(len(s) for s in self.data.values())
 
     # views
     def rows(self, db, rp, mst, with_ghost=None):
-        """{series: {ts: fields}}; with_ghost in (None, 'all', 'mem') adds buried rows not shadowed by live ones."""
+        """{series: {ts: fields}}; with_ghost in (None, 'all', 'mem', predicate on the buried row's fields + flags) adds
+        buried rows not shadowed by live ones."""
         k = (db, rp, mst)
         out = {s: {ts: dict(f) for ts, f in r.items()} for s, r in self.data.get(k, {}).items()}
         if with_ghost:
             for s, r in self.ghost.get(k, {}).items():
                 for ts, f in r.items():
                     if with_ghost == "mem" and not f.get("_mem"):
+                        continue
+                    if callable(with_ghost) and not with_ghost(f):
                         continue
                     if ts not in out.get(s, {}):
                         out.setdefault(s, {})[ts] = dict(f)  # keeps the classification flag "_mem"
@@ -299,9 +498,13 @@ def _tagf(op, key, v):
     return lambda t: v not in t.get(key, "")
 
 
-def shapes_for(rp, mst, full=True):
-    """[(name, query text, kind, params)]"""
+LISTINGS = ("series", "tagkeys", "tagvalues")
+
+
+def shapes_for(rp, mst, full=True, qualified=False):
+    """[(name, query text, kind, params)]; qualified: the listings name the retention policy as well"""
     s = src(rp, mst)
+    ls = s if qualified else '"%s"' % mst
     out = [("plain", "select v from %s" % s, "rows", dict())]
     if full:
         for op, nm in (("=", "eq"), ("!=", "neq"), ("=~", "re"), ("!~", "nre")):
@@ -321,18 +524,19 @@ def shapes_for(rp, mst, full=True):
     out.append(("count", "select count(v) from %s" % s, "count", dict()))
     if full:
         out.append(("count_exact", "select /*+ exact_statistic_query */ count(v) from %s" % s, "count", dict()))
-    out.append(("show_series", 'show series from "%s"' % mst, "series", dict()))
+    out.append(("show_series", 'show series from %s' % ls, "series", dict()))
     if full:
-        out.append(("show_tag_keys", 'show tag keys from "%s"' % mst, "tagkeys", dict()))
-        out.append(("show_tag_values", 'show tag values from "%s" with key = host' % mst, "tagvalues", dict()))
+        out.append(("show_tag_keys", 'show tag keys from %s' % ls, "tagkeys", dict()))
+        out.append(("show_tag_values", 'show tag values from %s with key = host' % ls, "tagvalues", dict()))
     return out
 
 
-def expected(ref, db, rp, mst, kind, params, with_ghost=None, ghost_bypass=False):
+def expected(ref, db, rp, mst, kind, params, with_ghost=None, ghost_bypass=False, scope="db"):
     """Canonical expected answer of one shape on the reference (with_ghost / ghost_bypass: classification only;
-    ghost_bypass = buried rows are not subjected to the tag filter of the shape)."""
-    if kind in ("series", "tagkeys", "tagvalues"):
-        ss = ref.series_db(db, mst, with_ghost)
+    ghost_bypass = buried rows are not subjected to the tag filter of the shape). scope: what a listing FROM a measurement
+    spans - the measurement under every retention policy of the database ("db") or under the named / default one ("rp")."""
+    if kind in LISTINGS:
+        ss = ref.series_db(db, mst, with_ghost) if scope == "db" else set(ref.rows(db, rp, mst, with_ghost))
         if kind == "series":
             return sorted(mst + "," + ",".join("%s=%s" % kv for kv in s) for s in ss)
         if kind == "tagkeys":
